@@ -15,9 +15,9 @@ except ImportError:          # executed from tools/props
 
 PROP = "C20"
 LEVEL = "proof"
-GEN_UNITS = []
-COQ_TARGETS = ["Props/C20.vo", "Model/C20Harness.vo", "Model/Harness.vo"]
-THEOREM_FILES = ["Props/C20.v"]
+GEN_UNITS = ["GenUtils3"]      # Props/C20Gen.v states the size / subscript / value checks of from_aggregator (and sptendiag) over the GENERATED tt_sizecheck / tt_subscheck / tt_valscheck
+COQ_TARGETS = ["Props/C20.vo", "Props/C20Gen.vo", "Model/C20Harness.vo", "Model/Harness.vo"]
+THEOREM_FILES = ["Props/C20.v", "Props/C20Gen.v"]
 COQ_IMPORTS = ("From Coq Require Import List ZArith Bool QArith Qcanon.\n"
                "From PV Require Import Base.Index Np.Array Model.Sparse Model.Repr Model.Harness Model.C20Gen Model.C20Harness.\n")
 RULE = ("all shapes with <= 8 cells + seeded random shapes (orders 1-5, singleton modes); function outputs as C-, F-ordered, "
@@ -43,12 +43,9 @@ RULE = ("all shapes with <= 8 cells + seeded random shapes (orders 1-5, singleto
 CORRESPONDENCE_ONLY = [
     "tenrand / sptenrand: that numpy's uniform draws lie in [0,1) is checked on the drawn samples only (a property of numpy's "
     "generator); that the tensor's values ARE the draws is proved (C20_from_function_values, C20_sprand_values)",
-    "request normalisation of sptensor.from_function / sptenrand: the double products prod(shape)*nonzeros and "
-    "prod(shape)*density are computed by numpy and enter the model as inputs (C20_request_float_product: exact product => "
-    "exact-rational model)",
-    "teneye: the general closed entry formula (C20Gen.teneye_formula) beyond order 4 - stated as C20_teneye_entry_formula_stmt, proved only "
-    "for orders <= 4, odd-multiplicity and constant subscripts (C20_teneye_entry_formula_partial); compared with pyttb's tensor on the "
-    "generated cases (orders 2, 4, 6, 8); the identity action itself is proved for every even order",
+    "request normalisation of sptensor.from_function / sptenrand: that numpy forms prod(shape)*nonzeros and prod(shape)*density in "
+    "IEEE binary64 round-to-nearest-even is compared on every case with the model's own rounding C20Gen.round64 (no float is an "
+    "input of the model any more; C20_round64_exact, C20_request_r64: representable product => exact-rational model)",
     "global-seed discipline of the random generators (the uniform calls they make are exactly the next draws of the global "
     "generator seeded by numpy.random.seed, nothing else is drawn and nothing is reseeded): observed on generated sequences of "
     "calls against an independent numpy.random.RandomState(seed); numpy's generator itself is not modelled",
@@ -63,11 +60,12 @@ EXPLANATION = ("Deterministic generators: theorems for all shapes/values over an
                "correspondence replays numpy's draws (captured by wrapping numpy.random.uniform) through the model and "
                "compares raw stored lists and the number of draws consumed (seeded reproducibility = output is a function "
                "of the captured stream; additionally every seeded call is executed twice and must coincide). After the repairs "
-               "of C20-N1/N2/N4/N6/N7/N8 and A-46 only the repaired behaviour is accepted (A-46: the redraw loop with the union of "
+               "of C20-N1..N8 and A-46 only the repaired behaviour is accepted everywhere (A-46: the redraw loop with the union of "
                "all consumed draws as a fallback, C20Gen.sprand_subs; C20_sprand_count states what is guaranteed: nnz = "
-               "min(request, distinct rows over all consumed draws)); the alternative 'what the property asks' is accepted "
-               "only inside the trigger region of the open finding C20-N3, which the Coq check computes from the case "
-               "(request equals the tensor size). "
+               "min(request, distinct rows over all consumed draws); C20-N3, /repo 2b4b024: a request equal to the tensor size is the "
+               "saturated request - every subscript in np.ndindex order, no draw consumed, C20_saturated_request); there is no open "
+               "finding and no either-or region. The size / subscript / value checks of from_aggregator are stated over the "
+               "translator-generated tt_sizecheck / tt_subscheck / tt_valscheck (Props/C20Gen.v). "
                "Corner requests of tendiag / sptendiag / from_aggregator (no element, empty shape, no pair, sizes below one) are "
                "checked against request models that state what the property demands (C20_tendiag_request, C20_sptendiag_request, "
                "C20_aggregator_request).")
@@ -188,14 +186,14 @@ def gen_cases(rng, tier):
     # random sparse generators: counts up to saturation and beyond, dyadic densities, seeds
     seed = 0
     rshapes = [(2, 2), (2, 3), (3,), (1,), (4, 3, 2), (1, 5), (2, 2, 2, 2), (6, 5), (3, 3, 3)]
-    rshapes += [tuple(tgen.rand_shape(rng, maxn=4, maxcells=40)) for _ in range(25 if big else 5)]
+    rshapes += [tuple(tgen.rand_shape(rng, maxn=4, maxcells=40)) for _ in range(16 if big else 5)]     # (25 made 1.6-2.4 GB coqc shards in the thorough tier)
     for shp in rshapes:
         total = math.prod(shp)
         reqs = {0, 1, 2, total - 1, total, total + 1, max(0, total // 2), max(0, total - 2)}
         reqs = [Fraction(r) for r in sorted(reqs)] + [Fraction(-1), Fraction(1, 2), Fraction(1, 4), Fraction(3, 4), Fraction(1, 16),
                                                      Fraction(15, 16), Fraction(11, 4), Fraction(1, 1024)]
         for r in reqs:
-            for rep in range(2 if big else 1):      # (3 repetitions made 2 GB coqc shards: killed on a loaded machine)
+            for rep in range(2 if (big and total <= 16) else 1):      # (more repetitions made 2 GB coqc shards: killed on a loaded machine)
                 fn = rng.choice(["ones", "counter", "uniform"])
                 cases.append(Case("sp_from_function", {"shape": list(shp), "p": r.numerator, "q": r.denominator, "fn": fn, "seed": seed},
                                   total > 1))
@@ -258,6 +256,48 @@ def gen_cases(rng, tier):
                     cases.append(Case("sptenrand", {"shape": shp, "mode": "nonzeros", "p": r, "q": 1, "seed": 0,
                                                     "forced": {"levels": L, "fseed": fs}}, True))
                 fs += 1
+    # the input class of the repaired finding C20-N3: the request EQUALS the tensor size (saturated: every subscript, no draw) -
+    # as int, float and numpy scalar, density 1.0, on injected streams (which must stay untouched), just above / below the size
+    # (size + 1/2 rejected, size - 1/2 -> size - 1 drawn), densities whose ceil reaches the size WITHOUT being saturated
+    # (0.9 on two cells: both cells must be drawn), the empty shape (one cell, order 0) and shapes without cells
+    sat_shapes = [[2, 2], [2, 3], [3], [1], [1, 1], [4, 3, 2], [1, 5], [2, 2, 2, 2], [7], [2], [2, 1]] + ([[6, 5], [3, 3, 3]] if big else [])
+    ss = 9000
+    for k, shp in enumerate(sat_shapes):
+        total = math.prod(shp)
+        fn = ("counter", "uniform", "ones")[k % 3]
+        for extra in ({}, {"rtype": "float"}, {"ntype": "np"}, {"ntype": "np", "rtype": "float"}):
+            cases.append(Case("sp_from_function", dict({"shape": shp, "p": total, "q": 1, "fn": fn, "seed": ss}, **extra), True))
+            cases.append(Case("sptenrand", dict({"shape": shp, "mode": "nonzeros", "p": total, "q": 1, "seed": ss + 1}, **extra), True))
+            ss += 2
+        for extra in ({}, {"ntype": "np"}):
+            cases.append(Case("sptenrand", dict({"shape": shp, "mode": "density", "p": 1, "q": 1, "seed": ss}, **extra), True))
+            ss += 1
+        for r in (Fraction(2 * total + 1, 2), Fraction(2 * total - 1, 2), Fraction(4 * total + 1, 4)):
+            if r < total and total > 8:
+                continue                # size - 1/2 -> size - 1 DRAWN: ten near-saturation draws per case, small shapes only (memory)
+            cases.append(Case("sp_from_function", {"shape": shp, "p": r.numerator, "q": r.denominator, "fn": fn, "seed": ss}, True))
+            cases.append(Case("sptenrand", {"shape": shp, "mode": "nonzeros", "p": r.numerator, "q": r.denominator, "seed": ss + 1}, True))
+            ss += 2
+        for L in (1, 2):
+            cases.append(Case("sp_from_function", {"shape": shp, "p": total, "q": 1, "fn": fn, "seed": 0,
+                                                   "forced": {"levels": L, "fseed": ss}}, True))
+            cases.append(Case("sptenrand", {"shape": shp, "mode": "density", "p": 1, "q": 1, "seed": 0,
+                                            "forced": {"levels": L, "fseed": ss + 1}}, True))
+            ss += 2
+        if 2 <= total <= 10:            # ceil(total * d) = total for d in (1 - 1/total, 1): the count is the size but every cell is DRAWN
+            for d in (0.9375, 0.96875, 0.999):
+                if math.ceil(total * Fraction(d)) == total:
+                    fr = Fraction(d)
+                    cases.append(Case("sp_from_function", {"shape": shp, "p": fr.numerator, "q": fr.denominator, "fn": fn, "seed": ss}, True))
+                    cases.append(Case("sp_from_function", {"shape": shp, "p": fr.numerator, "q": fr.denominator, "fn": fn, "seed": 0,
+                                                           "forced": {"levels": 4, "fseed": ss}}, True))
+                    ss += 1
+    for zs in ([], [0, 2], [3, 0], [0]):          # order 0 (one cell) and shapes without cells
+        for r in (Fraction(0), Fraction(1), Fraction(1, 2), Fraction(2), Fraction(1, 4)):
+            cases.append(Case("sp_from_function", {"shape": zs, "p": r.numerator, "q": r.denominator, "fn": "ones", "seed": 3}, False))
+            cases.append(Case("sptenrand", {"shape": zs, "mode": "nonzeros", "p": r.numerator, "q": r.denominator, "seed": 3}, False))
+            if 0 < r <= 1:
+                cases.append(Case("sptenrand", {"shape": zs, "mode": "density", "p": r.numerator, "q": r.denominator, "seed": 3}, False))
     # teneye
     for m, n in [(2, 1), (2, 2), (2, 3), (2, 4), (4, 1), (4, 2), (4, 3)] + ([(6, 2)] if big else []):
         x = [Fraction(rng.randint(-3, 3), rng.randint(1, 3)) for _ in range(n)]
@@ -339,7 +379,7 @@ def _call_random(np, ttb, c, reseed=True):
     a = c.args
     shp = tuple(a["shape"])
     req = Fraction(a["p"], a["q"])
-    reqf = float(req) if req.denominator != 1 else int(req)
+    reqf = float(req) if (req.denominator != 1 or a.get("rtype") == "float") else int(req)     # 6 as int, 6.0 with rtype float
     dens = float(req)
     if a.get("ntype") == "np":           # the request as a numpy scalar (np.prod(shape) // 2, a float32 density, ...)
         reqf = np.int64(reqf) if isinstance(reqf, int) else np.float32(reqf)
@@ -596,16 +636,13 @@ def coq_check(c, o):
         req = Fraction(a["p"], a["q"])
         if Fraction(float(req)) != req:
             return None                      # the request itself is not a double (never generated)
-        # the double product the code forms is an INPUT of the faithful model (exact as a rational)
-        fl = Fraction(float(total) * float(req))
-        rn, rd = fl.numerator, fl.denominator
+        # the double product the code forms is rounded BY THE MODEL (C20Gen.round64: binary64 round-to-nearest-even of the exact
+        # rational prod(shape) * p/q; C20_round64_exact / C20_request_r64): nothing float enters the model as an input
         res = o["res"]
         if c.op == "sptenrand" and a["mode"] == "density":
-            cnt_impl = f"(sptenrand_count_fl {total} {gz(a['p'])} {a['q']}%positive {gz(rn)} {rd}%positive)"
-            cnt_spec = f"(sptenrand_request_spec {total} {gz(a['p'])} {a['q']}%positive)"
+            cnt_impl = f"(sptenrand_count_r64 {total} {gz(a['p'])} {a['q']}%positive)"
         else:
-            cnt_impl = f"(norm_request_fl {total} {gz(a['p'])} {a['q']}%positive {gz(rn)} {rd}%positive)"
-            cnt_spec = f"(norm_request_spec {total} {gz(a['p'])} {a['q']}%positive)"
+            cnt_impl = f"(norm_request_r64 {total} {gz(a['p'])} {a['q']}%positive)"
         if not o["repro"]:
             return "false"
         if "exc" in res:
@@ -628,7 +665,7 @@ def coq_check(c, o):
                 obs_vals = res["vals"]
                 vals = [1] * res["nnz"] if a["fn"] == "ones" else list(range(1, res["nnz"] + 1))
             ob = f"(SOk {tgen.gsparse(res['shape'], res['subs'], obs_vals)})"
-        return (f"sprand_call_ok {cnt_impl} {cnt_spec} {gnlist(a['shape'])} {gdraws(o['draws'])} {gzlist(vals)} "
+        return (f"sprand_call_ok {cnt_impl} {gnlist(a['shape'])} {gdraws(o['draws'])} {gzlist(vals)} "
                 f"{len(o['draws'])} {ob}")
     if c.op in ("tenones_z", "tenzeros_z"):
         fn = "ztenones_chk" if c.op == "tenones_z" else "ztenzeros_chk"
@@ -814,6 +851,10 @@ def oracle(c, o):
             want = math.ceil(total * req)
         else:
             want = math.floor(req)
+        if total == 0 or (not a["shape"] and want):
+            # pyttb's sparse tensor cannot have a mode of size zero, and an order-0 one cannot hold an entry (the constructor
+            # rejects both): there is no tensor to return
+            want = None
         if "exc" in res:
             return None if want is None else f"admissible request {req} raised {res['exc']}: {res.get('msg')}"
         if want is None:
@@ -826,7 +867,11 @@ def oracle(c, o):
         if a.get("forced"):
             # injected draws cannot reach every request: at most the request, and short only if the draws were short
             distinct = {tuple(int((Fraction(m_, 2 ** 53) * d)) for m_, d in zip(row, a["shape"])) for dr in o["draws"] for row in dr}
-            if res["nnz"] != min(want, len(distinct)):
+            dens_mode = c.op == "sptenrand" and a["mode"] == "density"
+            if (req == 1) if dens_mode else (req == total):          # the saturated request: every cell, no subscript draw
+                if res["nnz"] != total or o["draws"]:
+                    return f"request = size: nnz {res['nnz']} != {total} or subscript draws consumed ({len(o['draws'])})"
+            elif res["nnz"] != min(want, len(distinct)):
                 return f"nnz {res['nnz']} != min(request {want}, {len(distinct)} distinct rows over all consumed draws)"
         elif res["nnz"] != want:
             return f"nnz {res['nnz']} != requested {want}"
@@ -898,7 +943,12 @@ def oracle(c, o):
     return None
 
 
-# ---------------------------------------------------------------- known findings (open: C20-N3 only)
+# ---------------------------------------------------------------- known findings: NONE open
+# C20-N3 (request equal to the tensor size rejected) is repaired in /repo 2b4b024: the model follows the repaired code
+# (C20Gen.norm_request_fl returns the saturated flag, sprand_req starts the loop from every subscript), the either-or region
+# C20Harness.n3_region is gone, there is ONE accepted behaviour everywhere. The witness (sptenrand((2,2), density=1.0)) is an
+# ordinary regression case of gen_cases; the input class "request equals the size" is generated for every shape of the random
+# stream (int, float and numpy-typed requests, density 1.0, injected draw streams, inside seeded sequences).
 def _total(c):
     return math.prod(c.args["shape"])
 
@@ -907,25 +957,9 @@ def _req(c):
     return Fraction(c.args["p"], c.args["q"])
 
 
-# The trigger region of the one OPEN finding (C20-N3, findings.d/C20.jsonl). The either-or "faithful model OR what the
-# property asks" is evaluated INSIDE the Coq check and only inside this region (C20Harness.n3_region, computed from the two
-# request readings); everywhere else pyttb must agree with the faithful model of the repaired code. The Python predicate
-# below restates the region for the evidence; no mismatch is attributed through it (TRIGGERS is empty: the triggers of the
-# repaired findings A-46, C20-N1/N2/N4/N5/N6/N7/N8 are gone, their witnesses are ordinary cases of gen_cases).
 INPUT_CLASSES = {
     "request_equals_size": lambda c: c.op in ("sp_from_function", "sptenrand")
     and ((_req(c) == 1) if (c.op == "sptenrand" and c.args["mode"] == "density") else _req(c) == _total(c)),
 }
 TRIGGERS = {}
-
-
-def _w_full():
-    import pyttb as ttb
-    try:
-        S = ttb.sptenrand((2, 2), density=1.0)
-    except AssertionError as ex:
-        return f"sptenrand((2,2),density=1.0) raised AssertionError: {str(ex)[:80]}"
-    return None if S.nnz == 4 else f"density 1.0 returned nnz={S.nnz}"
-
-
-WITNESSES = {"C20-N3": _w_full}
+WITNESSES = {}
